@@ -168,6 +168,7 @@ type tsEx struct {
 	spec       *ReqSpec
 	resp       *RespSpec
 	connGen    int // configuration generation in force when its connection was accepted
+	tunnel     bool // fetched through a blind tunnel: the origin closes after the response
 }
 
 type writeStamp struct {
@@ -198,7 +199,7 @@ func runC18(k *kernel.K) {
 		if e == nil {
 			return &Reply{Raw: []byte("HTTP/1.1 500 Unplanned\r\nContent-Length: 0\r\n\r\n")}
 		}
-		return &Reply{Raw: e.resp.Encode(req.Method)}
+		return &Reply{Raw: e.resp.Encode(req.Method), CloseAfter: e.tunnel}
 	}
 
 	// Configuration history: accepted and rejected configurations, each followed by connections.
@@ -383,6 +384,58 @@ func runC18(k *kernel.K) {
 			wasMid := midConfigured
 			if midConfigured {
 				staleNew, midConfigured = nil, false
+			}
+			if cl.Alive() && !wasMid && w.Chance(1, 4) {
+				// The client goes on with a CONNECT on the same connection and fetches a resource
+				// through the blind tunnel: these bytes are no response that matches a shape, whatever
+				// the previous response on the connection was.
+				k.Probe("tunnel_after_exchanges")
+				id := nextID
+				nextID++
+				e := &tsEx{id: id, tunnel: true, total: []int{2500, 6000, 9000}[w.Draw(3)]}
+				e.body = bodyBytes(e.id, 'r', e.total)
+				e.resp = &RespSpec{Status: 200, Framing: "cl", Body: e.body}
+				e.spec = &ReqSpec{ID: id, Method: "GET", Host: "origin-a.test", Path: fmt.Sprintf("/alpha/x%d", id)}
+				exs[id] = e
+				waitFor := func(done func() bool) {
+					for guard := 0; guard < 3000; guard++ {
+						k.Settle()
+						if done() || !cl.Alive() {
+							return
+						}
+						if k.Step() {
+							continue
+						}
+						k.Advance(50 * time.Millisecond)
+					}
+				}
+				nfin := len(cl.P.Final())
+				cl.Add(&ReqSpec{ID: id, Method: "CONNECT", Host: "origin-a.test:80", Path: "origin-a.test:80"})
+				waitFor(cl.Done)
+				if fin := cl.P.Final(); len(fin) == nfin+1 && fin[nfin].Status == 200 && cl.Alive() {
+					// what follows the CONNECT response is the tunnel's byte stream: parse it afresh
+					tp := wire.NewRespParser()
+					tp.Expect("GET")
+					cl.P = tp
+					t0 := k.Now()
+					cl.C.Inject(e.spec.Encode())
+					waitFor(func() bool { return len(tp.Final()) >= 1 })
+					k.Settle()
+					fin = tp.Final()
+					desc := fmt.Sprintf("exchange #%d (GET %s, %dB) through a blind CONNECT tunnel opened on a connection that had carried %d exchanges before", id, e.spec.Path, e.total, nreq)
+					if len(fin) != 1 || firstDiff(fin[0].Body, e.body) >= 0 {
+						got := -1
+						if len(fin) == 1 {
+							got = len(fin[0].Body)
+						} else if tp.Cur != nil {
+							got = len(tp.Cur.Body)
+						}
+						k.Fail("C18.bytes_exact", map[string]string{"shaped": "false", "mode": "tunnel"}, "%s: tunnelled bytes match no shape, yet the client did not receive the response intact (%d of %d body bytes, eof=%v)", desc, got, len(e.body), cl.SawEOF)
+					} else if el := k.Now() - t0; el > 2*connLatency+2*time.Millisecond {
+						k.Fail("C18.unmatched_undelayed", map[string]string{"mode": "tunnel"}, "%s: tunnelled bytes match no shape, yet the exchange took %v of simulated time (latency %v)", desc, el, connLatency)
+					}
+				}
+				cl.CloseNow()
 			}
 			if conn == nc-1 && cl.Alive() && ci < nconf-1 && !wasMid {
 				// keep the last connection of this round open across the next configuration
